@@ -447,8 +447,13 @@ def escapes(ctx, rel, ab):
       cmps = [c for c in ast.walk(st.test) if isinstance(c, ast.Compare)]
       ok = attrs and attrs <= {'quantized_start_step', 'quantized_end_step', 'quantized_step'} and \
           all(U.compare_nf(c) is not None and U.compare_nf(c)[1] == '<' and U.compare_nf(c)[2] == '0' for c in cmps)
+      # located deviation: the guard of the rejection reads the raw time of the event and no quantized step at all
+      raw = attrs & {'time', 'start_time', 'end_time'}
       ctx.ob('ESC/negative-on-step', qn, st, ok, 'negative check compares the quantized step with 0' if ok else
-             'negative-time rejection does not test "quantized step < 0" (%s): the rejected region is no longer "two or more steps before zero"' % norm_text(st.test))
+             'negative-time rejection does not test "quantized step < 0" (%s): %s' % (norm_text(st.test), (
+                 'it tests the raw %s, so an event less than half a step before zero - whose nearest step is 0 and which is quantized there - is rejected instead' % '/'.join(sorted(raw))
+                 if raw else 'the rejected region is no longer "two or more steps before zero"')),
+             definite=bool(raw) and not (attrs & {'quantized_start_step', 'quantized_end_step', 'quantized_step'}))
 
 
 def validation(ctx):
